@@ -386,6 +386,20 @@ def _binary_search(self, args):
     return ("agg", "adt", "std::result::Result", "Err", (_c(sum(1 for v in seq if v < k)),), 1)
 
 
+def _partition_point(self, args):
+    seq = _int_seq(args[0])
+    n = 0
+    flags = []
+    for v in seq:
+        r = _call_closure(self, args[1], [("ref", _c(v))])
+        if not _isc(r):
+            raise Unknown("partition_point predicate not folded")
+        flags.append(bool(r[1]))
+    if any(b and not a for a, b in zip(flags, flags[1:])):
+        raise Unknown("partition_point on a slice that is not partitioned (unspecified result)")
+    return _c(sum(flags))
+
+
 def _range_agg(r):
     """a promoted constant range (decoded struct constant) as an aggregate of constants"""
     if r[0] == "const" and isinstance(r[1], tuple):
@@ -574,6 +588,7 @@ def _clone(self, args):
 
 
 STD_MODELS = {
+    "core::slice::<impl [T]>::partition_point": _partition_point,
     "<std::option::Option<T> as std::clone::Clone>::clone": _clone,
     "std::clone::Clone::clone": _clone,
     "std::clone::impls::<impl std::clone::Clone for i32>::clone": _clone,
